@@ -16,12 +16,20 @@ Theorem C11_mapping_position :
 Proof. exact mapping_pos. Qed.
 Print Assumptions C11_mapping_position.
 
-(* D02: conversions in descending order (or mixed with add_import_func): the import section lists the new
-   imports in call order, the index space in function-vector order *)
-Example C11_refuted_D02 :
+(* former D02 (conversions in descending order, or mixed with add_import_func: the import section listed the new
+   imports in call order, the index space in function-vector order; repaired: the import section follows the index
+   space): the witnesses now satisfy the property *)
+Example C11_former_D02_witness_holds :
   let c := self_r [] [11; 12; 99] [] [] [LocalToImport 1 21; LocalToImport 0 22]
              [mkSite KCode SF 0 (OFunc 2); mkSite KCode SF 1 (OFunc 2)] in
-  agree c = true /\ dom_of (verdict11 c) = true /\ holds_of (verdict11 c) = false /\ known_D02 c = true.
+  agree c = true /\ dom_of (verdict11 c) = true /\ holds_of (verdict11 c) = true
+  /\ option_map e_imports (o_enc c) = Some [(0, 22); (0, 21)].
+Proof. vm_compute. repeat split; reflexivity. Qed.
+Example C11_former_D02_mixed_witness_holds :
+  let c := self_r [] [11; 12; 99] [] [] [AddImport SF 21; LocalToImport 0 22]
+             [mkSite KCode SF 0 (OFunc 2); mkSite KCode SF 3 (OFunc 2); mkSite KCode SF 1 (OFunc 2)] in
+  agree c = true /\ dom_of (verdict11 c) = true /\ holds_of (verdict11 c) = true
+  /\ option_map e_imports (o_enc c) = Some [(0, 22); (0, 21)].
 Proof. vm_compute. repeat split; reflexivity. Qed.
 Example C11_nonvacuous :
   let c := self_r [(0, 1)] [11; 12; 99] [] [] [LocalToImport 2 31]
@@ -30,12 +38,11 @@ Example C11_nonvacuous :
 Proof. vm_compute. repeat split; reflexivity. Qed.
 
 (* ---- over every reachable state (Proofs/ReidxInv.v): after a successful convert_local_fn_to_import of the
-   local function id with an import of fingerprint fp, outside D02 the id (which every former use
+   local function id with an import of fingerprint fp, the id (which every former use
    carries) is mapped to the index at which the emitted module has exactly that import *)
 Theorem C11_converted_function_id_designates_the_import :
   forall m id fp m' r it, wf m -> Reindex.step m (LocalToImport id fp) = Ok (m', r) ->
   nthN (s_items (m_f m)) id = Some it -> is_local it = true ->
-  okD02 SF m' = true ->
   forall l mp, index_space (m_f m') = Ok (l, mp) ->
   exists q, lookup mp id = Some q /\ nthN (space_of_model m' l SF) q = Some fp.
 Proof. exact l2i_binding. Qed.
